@@ -30,7 +30,7 @@
 (*    records that were already swapped/checkpointed - reachable only if a  *)
 (*    resolver checkpoints before StateWaitingFullResolution is committed;  *)
 (*    CommitBeforeCheckpoint assumes it away, the trace spec does not.)     *)
-(*   F15Fixed - a restart in StateContractClosed re-derives the close      *)
+(*   FccFixed - a restart in StateContractClosed re-derives the close      *)
 (*              trigger (code: uses chainTrigger, whose classification is  *)
 (*              EMPTY unless some HTLC is within the broadcast delta at    *)
 (*              the closing height, so no resolver is created at all).     *)
@@ -39,7 +39,7 @@ EXTENDS Naturals, Sequences, FiniteSets, TLC
 
 CONSTANTS Scenarios,               \* subset of the scenario names below
           MaxCrashes,              \* bound on Crash steps per behaviour
-          F8Fixed, F9Fixed, F15Fixed,
+          F8Fixed, F9Fixed, FccFixed,
           CommitBeforeCheckpoint,  \* assume StateWaitingFullResolution is committed before a resolver checkpoints (H3)
           EnvAtomic                \* chain events only arrive while the attendant is idle
 
@@ -108,7 +108,7 @@ Go(s)  == <<Op("Commit", s, {}), StepOp>>
 Dust   == IF HasOD THEN <<Op("Ups", "fail", {"od"})>> ELSE <<>>
 AfterClose(t) == IF t = "coop" THEN "FullyResolved" ELSE "ContractClosed"
 \* the chain-triggered classification of a restart in StateContractClosed is complete only if ...
-Full(t) == F15Fixed \/ t # "chain" \/ Near
+Full(t) == FccFixed \/ t # "chain" \/ Near
 
 ClosedOps(t) ==
   IF Kind = "breach"
@@ -235,7 +235,7 @@ MInsUnres(src) ==
   /\ LET s == Head(Begin(src)).s IN
      /\ unres' = [r \in Rid |-> IF r \in s THEN Fresh(r) ELSE unres[r]]
      /\ res'   = [r \in Rid |-> IF r \in s THEN FreshVol(r) ELSE NoRes]
-     /\ quirks' = quirks \cup (IF Head(Begin(src)).a = "partial" THEN {"F15"} ELSE {})
+     /\ quirks' = quirks \cup (IF Head(Begin(src)).a = "partial" THEN {"FCC"} ELSE {})
                           \cup (IF \E r \in s : unres[r] # NoRec /\ Rank(Fresh(r)) < Rank(unres[r])
                                 THEN {"H3"} ELSE {})
   /\ Took(src, Tail(Begin(src)), state)
@@ -402,7 +402,7 @@ Restart ==
   /\ ~alive /\ alive' = TRUE
   /\ state' = logState
   /\ LET t == IF closedDb /\ (logState \in {"Default", "BroadcastCommit", "CommitmentBroadcasted"}
-                              \/ (F15Fixed /\ logState = "ContractClosed"))
+                              \/ (FccFixed /\ logState = "ContractClosed"))
               THEN CloseTrig ELSE "chain" IN
      /\ tg' = t
      /\ IF logState = "WaitingFullResolution"
